@@ -1,28 +1,32 @@
 //! Stand-in for `rayon` under the shuttle scheduler (C09, engine E4).
 //!
-//! Models what `ec_core::generation` uses, following rayon's documented behaviour:
-//! * `iter::repeatn(x, n)` — an indexed parallel iterator of n clones;
-//! * `map_init(init, f)` — `init()` is called once per *split* (here: once per
-//!   job), `f(&mut state, item)` once per item;
-//! * `collect::<Vec<_>>()` keeps index order;
-//! * `collect::<Result<C, E>>()` — the first error to be *stored* wins, and
-//!   once an error was seen other workers stop taking items (rayon's `full`
-//!   flag), so some items may never be attempted.
+//! Models the part of rayon's API that `ec_core::generation` uses (and the
+//! neighbouring calls a change to it is likely to reach for), following
+//! rayon's documented behaviour:
+//! * sources (`repeatn`, ranges, vectors, slices) are split into *jobs*; a pool
+//!   of `workers` shuttle threads (the caller included) pulls jobs from a shared
+//!   queue — every queue access and every flag access is a scheduling point;
+//! * `map_init(init, f)`: `init()` runs once per job (rayon: once per split);
+//! * `collect::<Vec<_>>()` keeps source order;
+//! * `collect::<Result<C, E>>()`: the first error to be *stored* wins and, once
+//!   one was seen, workers stop taking further items (rayon's `full` flag), so
+//!   some items may never be attempted;
+//! * `current_num_threads()` is the configured worker count.
 //!
-//! The number of workers / jobs and the split points come from a per-thread
-//! configuration the harness sets before each execution.
+//! Anything else is simply absent: if the tree under test uses more of rayon
+//! than this, the shuttle leg does not build and is skipped with a note (the
+//! real-rayon legs still decide the property).
 
 use std::cell::RefCell;
 use std::collections::VecDeque;
 
-use shuttle::sync::atomic::{AtomicBool, Ordering};
+use shuttle::sync::atomic::{AtomicBool, AtomicUsize, Ordering};
 use shuttle::sync::Mutex;
 
 #[derive(Clone, Debug)]
 pub struct ShimConfig {
     pub workers: usize,
-    /// job boundaries: sorted split points inside 0..n are derived from these
-    /// fractions (in 1/1024ths)
+    /// job boundaries as fractions (1/1024ths) of the source length
     pub splits: Vec<u16>,
 }
 
@@ -32,17 +36,17 @@ impl Default for ShimConfig {
     }
 }
 
-thread_local! {
-    static CONFIG: RefCell<ShimConfig> = RefCell::new(ShimConfig::default());
-    static STATS: RefCell<ShimStats> = RefCell::new(ShimStats::default());
-}
-
 #[derive(Clone, Debug, Default)]
 pub struct ShimStats {
     pub jobs: usize,
     pub items_attempted: usize,
     pub items_skipped_after_stop: usize,
     pub inits: usize,
+}
+
+thread_local! {
+    static CONFIG: RefCell<ShimConfig> = RefCell::new(ShimConfig::default());
+    static STATS: RefCell<ShimStats> = RefCell::new(ShimStats::default());
 }
 
 /// Configuration lives in a plain thread-local: all shuttle "threads" of one
@@ -56,22 +60,45 @@ pub fn take_stats() -> ShimStats {
     STATS.with(|s| std::mem::take(&mut *s.borrow_mut()))
 }
 
+pub fn current_num_threads() -> usize {
+    CONFIG.with(|c| c.borrow().workers.max(1))
+}
+
 pub mod prelude {
-    pub use crate::iter::{FromParallelIterator, ParallelIterator};
+    pub use crate::iter::{
+        FromParallelIterator, IndexedParallelIterator, IntoParallelIterator, IntoParallelRefIterator, ParallelIterator,
+    };
 }
 
 pub mod iter {
     use super::*;
 
+    /// Position of an item in the output order (source index, sub-index for
+    /// `flat_map_iter`).
+    pub type Key = (usize, usize);
+
     pub trait ParallelIterator: Sized + Send {
         type Item: Send;
 
-        /// Number of items (all iterators modelled here are indexed).
-        fn len(&self) -> usize;
+        /// The one primitive: run the pipeline on the worker pool. `init()` is
+        /// called once per job; `g(state, key, item)` once per produced item and
+        /// returns false to signal "full" (stop taking further items).
+        fn drive_stateful<T, INIT, G>(self, init: &INIT, g: &G)
+        where
+            INIT: Fn() -> T + Sync,
+            G: Fn(&mut T, Key, Self::Item) -> bool + Sync;
 
-        /// Hand every item to `consume(index, item)`; `consume` returns false
-        /// to signal "full" (stop taking further items).
-        fn drive(self, consume: &(dyn Fn(usize, Self::Item) -> bool + Sync));
+        fn drive(self, consume: &(dyn Fn(Key, Self::Item) -> bool + Sync)) {
+            self.drive_stateful(&|| (), &|(): &mut (), k, x| consume(k, x));
+        }
+
+        fn map<F, R>(self, f: F) -> Map<Self, F>
+        where
+            F: Fn(Self::Item) -> R + Sync + Send,
+            R: Send,
+        {
+            Map { base: self, f }
+        }
 
         fn map_init<INIT, T, F, R>(self, init: INIT, f: F) -> MapInit<Self, INIT, F>
         where
@@ -82,13 +109,49 @@ pub mod iter {
             MapInit { base: self, init, f }
         }
 
-        fn map<F, R>(self, f: F) -> MapInit<Self, fn(), impl Fn(&mut (), Self::Item) -> R + Sync + Send>
+        fn map_with<T, F, R>(self, init: T, f: F) -> MapInit<Self, CloneInit<T>, F>
         where
-            F: Fn(Self::Item) -> R + Sync + Send,
+            T: Clone + Send + Sync,
+            F: Fn(&mut T, Self::Item) -> R + Sync + Send,
             R: Send,
         {
-            fn unit() {}
-            MapInit { base: self, init: unit as fn(), f: move |_: &mut (), x| f(x) }
+            MapInit { base: self, init: CloneInit(init), f }
+        }
+
+        fn flat_map_iter<F, SI>(self, f: F) -> FlatMapIter<Self, F>
+        where
+            F: Fn(Self::Item) -> SI + Sync + Send,
+            SI: IntoIterator,
+            SI::Item: Send,
+        {
+            FlatMapIter { base: self, f }
+        }
+
+        fn filter_map<F, R>(self, f: F) -> FilterMap<Self, F>
+        where
+            F: Fn(Self::Item) -> Option<R> + Sync + Send,
+            R: Send,
+        {
+            FilterMap { base: self, f }
+        }
+
+        fn for_each<F>(self, f: F)
+        where
+            F: Fn(Self::Item) + Sync + Send,
+        {
+            self.drive(&|_, x| {
+                f(x);
+                true
+            });
+        }
+
+        fn count(self) -> usize {
+            let n = std::sync::atomic::AtomicUsize::new(0);
+            self.drive(&|_, _| {
+                n.fetch_add(1, std::sync::atomic::Ordering::SeqCst);
+                true
+            });
+            n.into_inner()
         }
 
         fn collect<C>(self) -> C
@@ -99,14 +162,36 @@ pub mod iter {
         }
     }
 
+    pub trait IndexedParallelIterator: ParallelIterator {
+        fn len(&self) -> usize;
+
+        fn enumerate(self) -> Enumerate<Self> {
+            Enumerate { base: self }
+        }
+    }
+
     pub trait FromParallelIterator<T: Send> {
         fn from_par_iter<I>(par_iter: I) -> Self
         where
             I: ParallelIterator<Item = T>;
     }
 
-    /// Source iterators can produce the item at an index on demand.
-    pub trait Indexed: Sync {
+    pub trait IntoParallelIterator {
+        type Iter: ParallelIterator<Item = Self::Item>;
+        type Item: Send;
+        fn into_par_iter(self) -> Self::Iter;
+    }
+
+    pub trait IntoParallelRefIterator<'data> {
+        type Iter: ParallelIterator<Item = Self::Item>;
+        type Item: Send + 'data;
+        fn par_iter(&'data self) -> Self::Iter;
+    }
+
+    // ---- sources -----------------------------------------------------------
+
+    /// A source can produce the item at an index on demand.
+    pub trait Source: Sync + Send + Sized {
         type Item: Send;
         fn count(&self) -> usize;
         fn get(&self, i: usize) -> Self::Item;
@@ -121,12 +206,11 @@ pub mod iter {
         RepeatN { item, n }
     }
 
-    // rayon 1.10 also has the snake-case alias
     pub fn repeat_n<T: Clone + Send + Sync>(item: T, n: usize) -> RepeatN<T> {
         RepeatN { item, n }
     }
 
-    impl<T: Clone + Send + Sync> Indexed for RepeatN<T> {
+    impl<T: Clone + Send + Sync> Source for RepeatN<T> {
         type Item = T;
         fn count(&self) -> usize {
             self.n
@@ -136,46 +220,121 @@ pub mod iter {
         }
     }
 
-    impl<T: Clone + Send + Sync> ParallelIterator for RepeatN<T> {
+    pub struct RangeIter(std::ops::Range<usize>);
+
+    impl Source for RangeIter {
+        type Item = usize;
+        fn count(&self) -> usize {
+            self.0.end.saturating_sub(self.0.start)
+        }
+        fn get(&self, i: usize) -> usize {
+            self.0.start + i
+        }
+    }
+
+    impl IntoParallelIterator for std::ops::Range<usize> {
+        type Iter = RangeIter;
+        type Item = usize;
+        fn into_par_iter(self) -> RangeIter {
+            RangeIter(self)
+        }
+    }
+
+    pub struct SliceIter<'a, T>(&'a [T]);
+
+    impl<'a, T: Sync> Source for SliceIter<'a, T> {
+        type Item = &'a T;
+        fn count(&self) -> usize {
+            self.0.len()
+        }
+        fn get(&self, i: usize) -> &'a T {
+            &self.0[i]
+        }
+    }
+
+    impl<'data, T: Sync + 'data> IntoParallelRefIterator<'data> for Vec<T> {
+        type Iter = SliceIter<'data, T>;
+        type Item = &'data T;
+        fn par_iter(&'data self) -> SliceIter<'data, T> {
+            SliceIter(self)
+        }
+    }
+
+    impl<'data, T: Sync + 'data> IntoParallelRefIterator<'data> for [T] {
+        type Iter = SliceIter<'data, T>;
+        type Item = &'data T;
+        fn par_iter(&'data self) -> SliceIter<'data, T> {
+            SliceIter(self)
+        }
+    }
+
+    pub struct VecIter<T>(Vec<Mutex<Option<T>>>);
+
+    impl<T: Send> Source for VecIter<T> {
         type Item = T;
+        fn count(&self) -> usize {
+            self.0.len()
+        }
+        fn get(&self, i: usize) -> T {
+            self.0[i].lock().unwrap().take().expect("each vector element is taken once")
+        }
+    }
+
+    impl<T: Send> IntoParallelIterator for Vec<T> {
+        type Iter = VecIter<T>;
+        type Item = T;
+        fn into_par_iter(self) -> VecIter<T> {
+            VecIter(self.into_iter().map(|x| Mutex::new(Some(x))).collect())
+        }
+    }
+
+    macro_rules! source_is_par_iter {
+        ($($t:tt)+) => {
+            $($t)+ {
+                type Item = <Self as Source>::Item;
+                fn drive_stateful<ST, INIT, G>(self, init: &INIT, g: &G)
+                where
+                    INIT: Fn() -> ST + Sync,
+                    G: Fn(&mut ST, Key, Self::Item) -> bool + Sync,
+                {
+                    run_jobs(&self, init, g);
+                }
+            }
+        };
+    }
+    source_is_par_iter!(impl<T: Clone + Send + Sync> ParallelIterator for RepeatN<T>);
+    source_is_par_iter!(impl ParallelIterator for RangeIter);
+    source_is_par_iter!(impl<'a, T: Sync> ParallelIterator for SliceIter<'a, T>);
+    source_is_par_iter!(impl<T: Send> ParallelIterator for VecIter<T>);
+
+    impl<T: Clone + Send + Sync> IndexedParallelIterator for RepeatN<T> {
         fn len(&self) -> usize {
             self.n
         }
-        fn drive(self, consume: &(dyn Fn(usize, T) -> bool + Sync)) {
-            run_jobs(&self, &|| (), &|_: &mut (), x| x, consume);
-        }
     }
-
-    pub struct MapInit<B, INIT, F> {
-        base: B,
-        init: INIT,
-        f: F,
-    }
-
-    impl<B, INIT, T, F, R> ParallelIterator for MapInit<B, INIT, F>
-    where
-        B: ParallelIterator + Indexed<Item = <B as ParallelIterator>::Item>,
-        INIT: Fn() -> T + Sync + Send,
-        F: Fn(&mut T, <B as ParallelIterator>::Item) -> R + Sync + Send,
-        R: Send,
-    {
-        type Item = R;
+    impl IndexedParallelIterator for RangeIter {
         fn len(&self) -> usize {
-            ParallelIterator::len(&self.base)
+            Source::count(self)
         }
-        fn drive(self, consume: &(dyn Fn(usize, R) -> bool + Sync)) {
-            run_jobs(&self.base, &self.init, &self.f, consume);
+    }
+    impl<T: Sync> IndexedParallelIterator for SliceIter<'_, T> {
+        fn len(&self) -> usize {
+            self.0.len()
+        }
+    }
+    impl<T: Send> IndexedParallelIterator for VecIter<T> {
+        fn len(&self) -> usize {
+            self.0.len()
         }
     }
 
-    /// The scheduler-visible part: split 0..n into jobs, let `workers` shuttle
-    /// threads pull jobs from a shared queue; `init()` once per job.
-    fn run_jobs<S, INIT, T, F, R>(src: &S, init: &INIT, f: &F, consume: &(dyn Fn(usize, R) -> bool + Sync))
+    /// The scheduler-visible part: split 0..n into jobs, let the worker pool
+    /// pull jobs from a shared queue; `init()` once per job.
+    fn run_jobs<S, ST, INIT, G>(src: &S, init: &INIT, g: &G)
     where
-        S: Indexed,
-        INIT: Fn() -> T + Sync,
-        F: Fn(&mut T, S::Item) -> R + Sync,
-        R: Send,
+        S: Source,
+        INIT: Fn() -> ST + Sync,
+        G: Fn(&mut ST, Key, S::Item) -> bool + Sync,
     {
         let n = src.count();
         let cfg = CONFIG.with(|c| c.borrow().clone());
@@ -188,17 +347,15 @@ pub mod iter {
             jobs.push_back((start, c));
             start = c;
         }
-        if start < n || n == 0 {
-            if n > 0 {
-                jobs.push_back((start, n));
-            }
+        if start < n {
+            jobs.push_back((start, n));
         }
         let n_jobs = jobs.len();
         let queue = Mutex::new(jobs);
         let stop = AtomicBool::new(false);
-        let attempted = shuttle::sync::atomic::AtomicUsize::new(0);
-        let skipped = shuttle::sync::atomic::AtomicUsize::new(0);
-        let inits = shuttle::sync::atomic::AtomicUsize::new(0);
+        let attempted = AtomicUsize::new(0);
+        let skipped = AtomicUsize::new(0);
+        let inits = AtomicUsize::new(0);
         let workers = cfg.workers.max(1);
         let work = || loop {
             let job = queue.lock().unwrap().pop_front();
@@ -215,8 +372,7 @@ pub mod iter {
                     break;
                 }
                 attempted.fetch_add(1, Ordering::SeqCst);
-                let r = f(&mut state, src.get(i));
-                if !consume(i, r) {
+                if !g(&mut state, (i, 0), src.get(i)) {
                     stop.store(true, Ordering::SeqCst);
                 }
             }
@@ -239,19 +395,196 @@ pub mod iter {
         });
     }
 
+    // ---- adapters ----------------------------------------------------------
+
+    pub struct Map<B, F> {
+        base: B,
+        f: F,
+    }
+
+    impl<B, F, R> ParallelIterator for Map<B, F>
+    where
+        B: ParallelIterator,
+        F: Fn(B::Item) -> R + Sync + Send,
+        R: Send,
+    {
+        type Item = R;
+        fn drive_stateful<T, INIT, G>(self, init: &INIT, g: &G)
+        where
+            INIT: Fn() -> T + Sync,
+            G: Fn(&mut T, Key, R) -> bool + Sync,
+        {
+            let f = &self.f;
+            self.base.drive_stateful(init, &|st: &mut T, k, x| g(st, k, f(x)));
+        }
+    }
+
+    impl<B, F, R> IndexedParallelIterator for Map<B, F>
+    where
+        B: IndexedParallelIterator,
+        F: Fn(B::Item) -> R + Sync + Send,
+        R: Send,
+    {
+        fn len(&self) -> usize {
+            self.base.len()
+        }
+    }
+
+    pub struct CloneInit<T>(T);
+
+    pub trait InitFn: Sync + Send {
+        type State;
+        fn make(&self) -> Self::State;
+    }
+
+    impl<T, F: Fn() -> T + Sync + Send> InitFn for F {
+        type State = T;
+        fn make(&self) -> T {
+            self()
+        }
+    }
+
+    impl<T: Clone + Send + Sync> InitFn for CloneInit<T> {
+        type State = T;
+        fn make(&self) -> T {
+            self.0.clone()
+        }
+    }
+
+    pub struct MapInit<B, INIT, F> {
+        base: B,
+        init: INIT,
+        f: F,
+    }
+
+    impl<B, INIT2, F, R> ParallelIterator for MapInit<B, INIT2, F>
+    where
+        B: ParallelIterator,
+        INIT2: InitFn,
+        F: Fn(&mut INIT2::State, B::Item) -> R + Sync + Send,
+        R: Send,
+    {
+        type Item = R;
+        fn drive_stateful<T, INIT, G>(self, init: &INIT, g: &G)
+        where
+            INIT: Fn() -> T + Sync,
+            G: Fn(&mut T, Key, R) -> bool + Sync,
+        {
+            let (init2, f) = (&self.init, &self.f);
+            self.base.drive_stateful(&|| (init(), init2.make()), &|st: &mut (T, INIT2::State), k, x| {
+                let r = f(&mut st.1, x);
+                g(&mut st.0, k, r)
+            });
+        }
+    }
+
+    impl<B, INIT2, F, R> IndexedParallelIterator for MapInit<B, INIT2, F>
+    where
+        B: IndexedParallelIterator,
+        INIT2: InitFn,
+        F: Fn(&mut INIT2::State, B::Item) -> R + Sync + Send,
+        R: Send,
+    {
+        fn len(&self) -> usize {
+            self.base.len()
+        }
+    }
+
+    pub struct Enumerate<B> {
+        base: B,
+    }
+
+    impl<B: IndexedParallelIterator> ParallelIterator for Enumerate<B> {
+        type Item = (usize, B::Item);
+        fn drive_stateful<T, INIT, G>(self, init: &INIT, g: &G)
+        where
+            INIT: Fn() -> T + Sync,
+            G: Fn(&mut T, Key, (usize, B::Item)) -> bool + Sync,
+        {
+            self.base.drive_stateful(init, &|st: &mut T, k, x| g(st, k, (k.0, x)));
+        }
+    }
+
+    impl<B: IndexedParallelIterator> IndexedParallelIterator for Enumerate<B> {
+        fn len(&self) -> usize {
+            self.base.len()
+        }
+    }
+
+    pub struct FlatMapIter<B, F> {
+        base: B,
+        f: F,
+    }
+
+    impl<B, F, SI> ParallelIterator for FlatMapIter<B, F>
+    where
+        B: ParallelIterator,
+        F: Fn(B::Item) -> SI + Sync + Send,
+        SI: IntoIterator,
+        SI::Item: Send,
+    {
+        type Item = SI::Item;
+        fn drive_stateful<T, INIT, G>(self, init: &INIT, g: &G)
+        where
+            INIT: Fn() -> T + Sync,
+            G: Fn(&mut T, Key, SI::Item) -> bool + Sync,
+        {
+            let f = &self.f;
+            self.base.drive_stateful(init, &|st: &mut T, k, x| {
+                let mut go_on = true;
+                for (j, y) in f(x).into_iter().enumerate() {
+                    if !g(st, (k.0, j), y) {
+                        // rayon's consumers are checked for fullness between items
+                        go_on = false;
+                        break;
+                    }
+                }
+                go_on
+            });
+        }
+    }
+
+    pub struct FilterMap<B, F> {
+        base: B,
+        f: F,
+    }
+
+    impl<B, F, R> ParallelIterator for FilterMap<B, F>
+    where
+        B: ParallelIterator,
+        F: Fn(B::Item) -> Option<R> + Sync + Send,
+        R: Send,
+    {
+        type Item = R;
+        fn drive_stateful<T, INIT, G>(self, init: &INIT, g: &G)
+        where
+            INIT: Fn() -> T + Sync,
+            G: Fn(&mut T, Key, R) -> bool + Sync,
+        {
+            let f = &self.f;
+            self.base.drive_stateful(init, &|st: &mut T, k, x| match f(x) {
+                Some(y) => g(st, k, y),
+                None => true,
+            });
+        }
+    }
+
+    // ---- collecting --------------------------------------------------------
+
     impl<T: Send> FromParallelIterator<T> for Vec<T> {
         fn from_par_iter<I>(par_iter: I) -> Self
         where
             I: ParallelIterator<Item = T>,
         {
-            let n = par_iter.len();
-            let slots: Mutex<Vec<Option<T>>> = Mutex::new((0..n).map(|_| None).collect());
-            par_iter.drive(&|i, x| {
-                slots.lock().unwrap()[i] = Some(x);
+            let slots: Mutex<Vec<(Key, T)>> = Mutex::new(Vec::new());
+            par_iter.drive(&|k, x| {
+                slots.lock().unwrap().push((k, x));
                 true
             });
-            // index order, like rayon's indexed collect
-            slots.into_inner().unwrap().into_iter().flatten().collect()
+            // source order, like rayon's collect
+            let mut v = slots.into_inner().unwrap();
+            v.sort_by_key(|(k, _)| *k);
+            v.into_iter().map(|(_, x)| x).collect()
         }
     }
 
@@ -267,17 +600,18 @@ pub mod iter {
         E: Send,
     {
         type Item = T;
-        fn len(&self) -> usize {
-            self.inner.len()
-        }
-        fn drive(self, consume: &(dyn Fn(usize, T) -> bool + Sync)) {
+        fn drive_stateful<ST, INIT, G>(self, init: &INIT, g: &G)
+        where
+            INIT: Fn() -> ST + Sync,
+            G: Fn(&mut ST, Key, T) -> bool + Sync,
+        {
             let saved = self.saved;
-            self.inner.drive(&|i, r| match r {
-                Ok(x) => consume(i, x),
+            self.inner.drive_stateful(init, &|st: &mut ST, k, r| match r {
+                Ok(x) => g(st, k, x),
                 Err(e) => {
-                    let mut g = saved.lock().unwrap();
-                    if g.is_none() {
-                        *g = Some(e);
+                    let mut slot = saved.lock().unwrap();
+                    if slot.is_none() {
+                        *slot = Some(e);
                     }
                     false
                 }
@@ -300,6 +634,25 @@ pub mod iter {
             match saved.into_inner().unwrap() {
                 Some(e) => Err(e),
                 None => Ok(collection),
+            }
+        }
+    }
+
+    impl<C, T> FromParallelIterator<Option<T>> for Option<C>
+    where
+        C: FromParallelIterator<T>,
+        T: Send,
+    {
+        fn from_par_iter<I>(par_iter: I) -> Self
+        where
+            I: ParallelIterator<Item = Option<T>>,
+        {
+            let saved: Mutex<Option<()>> = Mutex::new(None);
+            let collection =
+                C::from_par_iter(OkAdapter { inner: par_iter.map(|o| o.ok_or(())), saved: &saved });
+            match saved.into_inner().unwrap() {
+                Some(()) => None,
+                None => Some(collection),
             }
         }
     }
